@@ -205,12 +205,13 @@ def _descent_direction(X, y, w_epoch, Xw_epoch, fit_intercept, grad_ws, datafit,
     for cd_iter in range(MAX_CD_ITER):
         ptr = 0
         for idx, g in enumerate(ws):
-            # skip when X[:, grp_g_indices] == 0
-            if lipchitz[idx] == 0.:
-                continue
-
             grp_g_indices = grp_indices[grp_ptr[g]:grp_ptr[g+1]]
             range_grp_g = slice(ptr, ptr + len(grp_g_indices))
+
+            # skip when X[:, grp_g_indices] == 0
+            if lipchitz[idx] == 0.:
+                ptr += len(grp_g_indices)
+                continue
 
             past_grads[range_grp_g] = grad_ws[range_grp_g]
             # += X[:, grp_g_indices].T @ (raw_hess * X_delta_w_ws)
